@@ -18,7 +18,9 @@ def dt0(vf, initial_values: Sequence, /, scale=0.01, nugget=1e-5, **vf_kwargs):
     norm_y0 = linalg.vector_norm(u0)
     norm_dy0 = linalg.vector_norm(f0) + nugget
 
-    return scale * norm_y0 / norm_dy0
+    # Guard against (numerically) zero initial values, for which the ratio
+    # would be zero and no solver could start. Same guard as in dt0_adaptive.
+    return np.where(norm_y0 < 1e-5, 1e-6, scale * norm_y0 / norm_dy0)
 
 
 def dt0_adaptive(
